@@ -711,6 +711,7 @@ extern "C" int pmc_main(int argc, char** argv, const pmc_config* cfg, const pmc_
             for (int i = 0; i < r->nchoices; ++i) { kc[r->kind[i] & 7]++; alts[r->kind[i] & 7] += r->n[i] - 1; }
             printf("choice kinds (count/alternatives): focus %ld/%ld block %ld/%ld yield %ld/%ld data %ld/%ld\n", kc[1], alts[1], kc[2], alts[2], kc[3], alts[3], kc[4], alts[4]);
         }
+        printf("observed outcome: %s\n", r->outcome_str);
         printf("run: spec=%s outcome=%s %s %s hash=%016llx choices=%s\n", specs[si].name, outcome_name(r->outcome).c_str(), r->fail_id, r->msg, (unsigned long long) r->hash, choices_str(r).c_str());
         stop_slots();
         return 0;
